@@ -68,6 +68,7 @@ def gen_world(seed, tier):
         return {"class": "MinGenSet", "graph": None, "args": args}
     nu = rng.randint(2, 6)
     universe = list(range(nu))
+    empty_universe = random.Random(H(seed, "c15empty")).random() < 0.06
     subsets = []
     for _ in range(rng.randint(2, 6)):
         s = [u for u in universe if rng.random() < 0.45]
@@ -82,6 +83,9 @@ def gen_world(seed, tier):
         subsets.insert(r2.randrange(len(subsets) + 1), [])             # an empty subset, anywhere in the list
     if r2.random() < 0.15 and subsets:
         subsets.insert(r2.randrange(len(subsets) + 1), list(r2.choice(subsets)))     # the same subset twice
+    if empty_universe:
+        universe = []                    # nothing to cover: the empty cover is the optimum
+        subsets = [list(s_) for s_ in subsets[:2]]
     args = {"universe": universe, "subsets": subsets, "solver_options": {}}
     if rng.random() < 0.7:
         args["subset_weights"] = [rng.choice([1, 1, 2, 3, 0.5, 2.5]) for _ in subsets]
@@ -101,6 +105,22 @@ def plans(world, info, seed, tier):
             if kind == "time_limit_with_incumbent":
                 f["incumbent"] = "feasible"
             specs.append({"world": world, "sim": {"latency": "instant", "reply": "canonical", "reply_seed": rng.randrange(1 << 30), "faults": [f]}})
+    # another instance with the same data but other side conditions is built and solved first, in the same process
+    import copy as _copy
+    sib = _copy.deepcopy(world)
+    a_ = sib["args"]
+    if world["class"] == "MinGenSet":
+        if "partition_constraints" in a_:
+            a_.pop("partition_constraints")
+        else:
+            a_["remove_complement_values"] = not a_.get("remove_complement_values", True)
+        a_["lowerbound"] = 1
+    else:
+        if a_.get("subset_weights"):
+            a_["subset_weights"] = [1 for _ in a_["subset_weights"]]
+        else:
+            a_["subset_weights"] = [rng.choice([1, 2, 5]) for _ in a_["subsets"]]
+    specs.append({"world": world, "sibling_first": sib, "sim": {"latency": "instant", "reply": "canonical", "reply_seed": rng.randrange(1 << 30), "faults": []}})
     if world["class"] == "MinGenSet":
         for j in range(2 if tier == "quick" else 4):
             specs.append({"world": world, "sim": {"latency": "instant", "reply": rng.choice(["canonical", "alt+noise"]), "reply_seed": rng.randrange(1 << 30),
@@ -121,6 +141,15 @@ def execute(spec):
     try:
         with W.active(sim):
             try:
+                if spec.get("sibling_first"):
+                    try:
+                        sibm = models.build(spec["sibling_first"])
+                        sibm.solve()
+                    except W.Discard:
+                        raise
+                    except Exception:
+                        pass
+                    sim.faults = {}
                 model = models.build(world)
                 model.solve()
                 try:
